@@ -208,6 +208,10 @@ fn without_finish(evs: &[Ev]) -> Vec<Ev> {
 }
 
 fn check_case(drv: &Driver, drv_name: &str, a: &[u8], b: &[u8], stacks: &[usize], out: &mut Local) {
+    check_case_opt(drv, drv_name, a, b, stacks, true, out)
+}
+
+fn check_case_opt(drv: &Driver, drv_name: &str, a: &[u8], b: &[u8], stacks: &[usize], enumerate_faults: bool, out: &mut Local) {
     let mut clean: Vec<Option<Vec<Ev>>> = vec![None; STACKS.len()];
     for &stack in stacks {
         for with_rep in [true, false] {
@@ -274,9 +278,10 @@ fn check_case(drv: &Driver, drv_name: &str, a: &[u8], b: &[u8], stacks: &[usize]
                     out.count("default_replace_expansions_checked");
                 }
             }
-            // fault enumeration: every k
+            // fault enumeration: every k (for the huge inputs: first, last and three in between)
             let total = c.evs.len();
-            for k in 0..total {
+            let ks: Vec<usize> = if enumerate_faults { (0..total).collect() } else { vec![0, total / 3, total / 2, total.saturating_sub(2), total.saturating_sub(1)].into_iter().filter(|k| *k < total).collect() };
+            for k in ks {
                 out.eval();
                 out.count("failing_runs");
                 match execute(stack, with_rep, Some(k), drv, a, b) {
@@ -381,6 +386,40 @@ pub fn families() -> Vec<Box<dyn Family>> {
                     let name = format!("{} with deadline expiring at check #{}", alg_name(alg), k);
                     check_case(&Driver::AlgDeadline(alg, k), &name, &a, &b, &s, out);
                 }
+            },
+        ),
+        family(
+            "alg_huge",
+            "protocol on huge inputs (clean run + 5 failing call indices): LCS on two unrelated sequences of about 4200 x 4100 items, Myers / Patience on 20000-item near-identical and on 3000 x 3000 unrelated inputs, through H, Replace<H>, Compact<Replace<H>> — finish exactly once and last also when internal size limits could apply",
+            false,
+            1,
+            |cfg| if cfg.tiny { 1 } else { cfg.tier.pick(5, 20) },
+            |idx, cfg, out| {
+                let mut rng = Rng::for_case(cfg.seed, "c08.alg_huge", idx);
+                let (a, b, alg) = if cfg.tiny {
+                    (vec![1u8, 2, 3], vec![1u8, 3], Algorithm::Lcs)
+                } else if idx % 5 == 0 {
+                    // bytes 0..=250 cycle: unrelated sequences built from disjoint alphabets
+                    let n = rng.range(4100, 4300);
+                    let m = rng.range(4100, 4300);
+                    ((0..n).map(|i| (i % 120) as u8).collect::<Vec<u8>>(), (0..m).map(|i| 128 + (i % 120) as u8).collect::<Vec<u8>>(), Algorithm::Lcs)
+                } else if idx % 5 <= 2 {
+                    let n = 20_000;
+                    let a: Vec<u8> = (0..n).map(|i| ((i * 7 + i / 251) % 251) as u8).collect();
+                    let mut b = a.clone();
+                    for _ in 0..4 {
+                        let i = rng.below(b.len());
+                        b[i] = 255;
+                    }
+                    (a, b, if idx % 5 == 1 { Algorithm::Myers } else { Algorithm::Patience })
+                } else {
+                    let n = 3000;
+                    ((0..n).map(|i| (i % 120) as u8).collect::<Vec<u8>>(), (0..n).map(|i| 128 + (i % 120) as u8).collect::<Vec<u8>>(), if idx % 5 == 3 { Algorithm::Myers } else { Algorithm::Patience })
+                };
+                out.sample(|| format!("alg={} N={} M={}", alg_name(alg), a.len(), b.len()));
+                out.nontrivial(&(alg_name(alg), a.len(), b.len(), idx));
+                out.count("huge_protocol_cases");
+                check_case_opt(&Driver::Alg(alg), alg_name(alg), &a, &b, &[0, 1, 3], false, out);
             },
         ),
         family(
